@@ -74,8 +74,12 @@ def _patch():
         cls.compute_log_likelihood = wrapped
 
 
-def _underlying(kind, n_dim, centered, n_ids):
+def _underlying(kind, n_dim, centered, n_ids, late=False):
     leaf = GP.make_leaf(kind, n_dim, centered, 0, None, n_ids)
+    if late and kind == 'H':
+        # created for one individual: the covariate wrapper's set_n_ids has
+        # to pass the number of individuals on
+        return leaf, chi.HeterogeneousModel(n_dim=n_dim)
     return leaf, GP.build_chi_leaf(leaf, n_ids)
 
 
@@ -104,7 +108,8 @@ def _container(rng, sel):
 def run_case(ctx, rng, kind, centered, n_dim, n_cov, n_ids, sel_mode,
              zero=None, given=None):
     _patch()
-    leaf0, base = _underlying(kind, n_dim, centered, n_ids)
+    late = kind == 'H' and bool(rng.integers(2))
+    leaf0, base = _underlying(kind, n_dim, centered, n_ids, late)
     npd = GP.n_per_dim(leaf0, n_ids)
     if given is None:
         given, sel = _selection(rng, npd, n_dim, sel_mode)
@@ -113,11 +118,33 @@ def run_case(ctx, rng, kind, centered, n_dim, n_cov, n_ids, sel_mode,
     cont = 'default'
     feats = {'class': GP.leaf_code(leaf0), 'kind': kind, 'n_dim': n_dim,
              'n_cov': n_cov, 'n_ids': n_ids, 'selection_mode': sel_mode,
-             'n_selected': len(sel), 'zero': zero}
+             'n_selected': len(sel), 'zero': zero, 'late_n_ids': late}
     model = chi.CovariatePopulationModel(
         base, chi.LinearCovariateModel(n_cov=n_cov))
     model.set_n_ids(n_ids)
+    if late:
+        base.set_n_ids(n_ids)       # the harness's own copy, for reference
     if given is not None:
+        # the object may have carried other selections before (re-selection
+        # replaces them): random ones and ones of the same size with the
+        # dimensions / parameter rows exchanged
+        n_prev = int(rng.integers(0, 3)) if rng.random() < 0.5 else 0
+        feats['earlier_selections'] = n_prev
+        for _ in range(n_prev):
+            if rng.random() < 0.6 and (n_dim > 1 or npd > 1):
+                pd_ = rng.permutation(n_dim)
+                pp_ = rng.permutation(npd)
+                prev = [(int(pp_[p_]), int(pd_[d_])) for p_, d_ in given]
+            else:
+                prev, _ = _selection(rng, npd, n_dim, 'random')
+            try:
+                model.set_population_parameters(_container(rng, prev)[0])
+                model.get_parameter_names()
+            except Exception as e:      # noqa
+                ctx.violation_exc('in_range_selection_accepted', e,
+                                  {'selection': prev, 'case': feats}, feats)
+                return
+            ctx.count('reselections')
         arg, cont = _container(rng, given)
         try:
             model.set_population_parameters(arg)
